@@ -212,6 +212,10 @@ impl Scn2 {
             }
             P2::Instantiate => {}
             _ => {
+                // now and then an order carried over from an early version under an un-hyphenated key
+                if rng.chance(15) {
+                    plan.push_back(Planned::PutLegacyId);
+                }
                 let (mut a, mut b) = (rng.range(1, 2), rng.range(1, 2));
                 while a + b > 0 {
                     if b == 0 || (a > 0 && rng.chance(50)) {
@@ -265,7 +269,25 @@ impl Scn2 {
                         msg["size_increment"] = json!(10u128.pow(low).to_string());
                     }
                 }
-                6 => msg["size_increment"] = json!("0"),
+                6 => {
+                    if rng.chance(50) {
+                        msg["size_increment"] = json!("0");
+                    } else {
+                        // increments beyond 64 bits: multiples and non-multiples of 10^precision whose low 64 / 32 bits
+                        // say the opposite
+                        let p = rng.range(1, 18) as u32;
+                        let unit = 10u128.pow(p);
+                        let big: u128 = *rng.pick(&[1u128 << 64, 3u128 << 64, (1u128 << 64) + 100, (1u128 << 100) + unit, 1u128 << 32]);
+                        let inc = match rng.below(4) {
+                            0 => big,
+                            1 => big - big % unit,
+                            2 => (big - big % unit).saturating_add(unit),
+                            _ => unit.saturating_mul(*rng.pick(&[10u128, 25, 1u128 << 40])),
+                        };
+                        msg["price_precision"] = json!(p.to_string());
+                        msg["size_increment"] = json!(inc.to_string());
+                    }
+                }
                 7 => {
                     // increment around a power of ten
                     let p = rng.below(5) as u32;
@@ -329,6 +351,26 @@ impl Scn2 {
     }
 
     fn new_id(&mut self, rng: &mut Rng) -> String {
+        // now and then the canonical spelling of a uuid already in use: the hyphenated twin of a legacy
+        // un-hyphenated key, or the same id on the other side of the book (ids are unique per side only)
+        if !self.used_ids.is_empty() && rng.chance(8) {
+            let u = rng.pick(&self.used_ids).clone();
+            let hex: String = u
+                .chars()
+                .filter(|c| c.is_ascii_hexdigit())
+                .collect::<String>()
+                .to_lowercase();
+            if hex.len() == 32 {
+                return format!(
+                    "{}-{}-{}-{}-{}",
+                    &hex[0..8],
+                    &hex[8..12],
+                    &hex[12..16],
+                    &hex[16..20],
+                    &hex[20..32]
+                );
+            }
+        }
         self.next_id += 1;
         // the leading digit is random so that ids of later orders sort before earlier ones too
         let id = format!(
